@@ -187,8 +187,8 @@ func main() {
 				fmt.Println()
 			}
 		}
-		fmt.Printf("%s tier=%s obligations=%d discharged=%d violated=%d undecided=%d vacuous=%d known=%d analysed=%v wall=%.2fs\n",
-			id, *tier, n, okN, viol, und, vac, known, r.Analysed, wall)
+		fmt.Printf("%s tier=%s obligations=%d discharged=%d violated=%d undecided=%d vacuous=%d known=%d not-evaluated=%d analysed=%v wall=%.2fs\n",
+			id, *tier, n, okN, viol, und, vac, known, r.skipped(), r.Analysed, wall)
 		if viol+und+vac > 0 {
 			path, _ := writeReport(*evdir, p, r)
 			fmt.Printf("VIOLATION property=%s replay=%s\n", id, path)
